@@ -67,7 +67,7 @@ PROPS["C16"] = dict(
 
 PROPS["C15"] = dict(
     harness="c15_objects", flavour="asan",
-    quick=dict(workers=8, cases=40000, min_nontrivial=500),
+    quick=dict(workers=8, cases=80000, min_nontrivial=500),
     thorough=dict(workers=16, cases=3000000, min_nontrivial=5000, budget_s=3000,
                   fuzz=dict(target="f15_objects", runs=100000, jobs=8, max_len=164)),
     rule="Stateful/model-based: command histories (length 0-30, whole-sequence shrinking) over a pool of 4 slots of one "
@@ -90,7 +90,7 @@ PROPS["C15"] = dict(
 
 PROPS["C17"] = dict(
     harness="c17_gridindex", flavour="asan",
-    quick=dict(workers=8, cases=20000, min_nontrivial=300),
+    quick=dict(workers=8, cases=40000, min_nontrivial=300),
     thorough=dict(workers=16, cases=2000000, min_nontrivial=1500, budget_s=3000,
                   fuzz=dict(target="f17_gridindex", runs=200000, jobs=8, max_len=512)),
     rule="PolarGrid(radii, angles[, split]) with nr 2..65 (uniform / geometric / random-ratio / midpoint-nested radii, "
@@ -134,7 +134,7 @@ PROPS["C18"] = dict(
 
 PROPS["C03"] = dict(
     harness="c03_operator", flavour="rel",
-    quick=dict(workers=8, cases=3000, min_nontrivial=300),
+    quick=dict(workers=8, cases=8000, min_nontrivial=300),
     thorough=dict(workers=16, cases=300000, min_nontrivial=3000, budget_s=3000),
     rule="Admissible grids nr 4..41 x ntheta 4..48 (even; plus ~2.5% grids with 10k-25k nodes), radii uniform/geometric/"
          "random-ratio/midpoint-nested with R0/Rmax 1e-8..0.5, angles uniform or non-uniform with antipodal partners, "
@@ -159,7 +159,7 @@ PROPS["C03"] = dict(
 
 PROPS["C05"] = dict(
     harness="c05_spd", flavour="rel",
-    quick=dict(workers=8, cases=3000, min_nontrivial=300),
+    quick=dict(workers=8, cases=8000, min_nontrivial=300),
     thorough=dict(workers=16, cases=200000, min_nontrivial=3000, budget_s=3000),
     rule="Grids/geometries/profiles/boundary modes as C03 (level 0 only); vector pairs x,y zeroed on Dirichlet nodes from "
          "normal, smooth, unit, spikes, huge dynamic range, constant, checkerboard, origin-circle spike and 3 steps of "
@@ -179,7 +179,7 @@ PROPS["C05"] = dict(
 
 PROPS["C04"] = dict(
     harness="c04_directsolver", flavour="rel",
-    quick=dict(workers=8, cases=800, min_nontrivial=150),
+    quick=dict(workers=8, cases=2000, min_nontrivial=150),
     thorough=dict(workers=16, cases=150000, min_nontrivial=1500, budget_s=3000),
     rule="Grids from the smallest hierarchy level (nr=5, ntheta=4) to 33x40, 2% up to 49x64 (fill-in), all spacing "
          "classes, explicit and automatic splits, four geometries, seven profiles, both boundary modes; "
@@ -206,7 +206,7 @@ _SMOOTH_RULE = ("smoothing-admissible grids (ntheta in 4,8,...,64 divisible by 4
 
 PROPS["C06"] = dict(
     harness="c06_smoother", flavour="rel",
-    quick=dict(workers=8, cases=1600, min_nontrivial=300),
+    quick=dict(workers=8, cases=4000, min_nontrivial=300),
     thorough=dict(workers=16, cases=100000, min_nontrivial=3000, budget_s=3000),
     rule="SmootherGive/SmootherTake on " + _SMOOTH_RULE % (2, "and for energy-norm monotonicity"),
     technique="property-based testing (rapidcheck); model-based oracle (reference zebra relaxation on the probed operator) plus residual, fixed-point and energy-norm invariants",
@@ -221,7 +221,7 @@ PROPS["C06"] = dict(
 
 PROPS["C07"] = dict(
     harness="c07_extrapolated_smoother", flavour="rel",
-    quick=dict(workers=8, cases=1600, min_nontrivial=300),
+    quick=dict(workers=8, cases=4000, min_nontrivial=300),
     thorough=dict(workers=16, cases=100000, min_nontrivial=3000, budget_s=3000),
     rule="ExtrapolatedSmootherGive/Take on coarsenable " + _SMOOTH_RULE % (3, "(f := A x for an arbitrary x)"),
     technique="property-based testing (rapidcheck); bitwise invariance of coarse nodes, model-based oracle (reference relaxation restricted to fine-only nodes), residual and fixed-point invariants",
@@ -235,7 +235,7 @@ PROPS["C07"] = dict(
 
 PROPS["C08"] = dict(
     harness="c08_transfer", flavour="rel",
-    quick=dict(workers=8, cases=3000, min_nontrivial=300),
+    quick=dict(workers=8, cases=8000, min_nontrivial=300),
     thorough=dict(workers=16, cases=200000, min_nontrivial=3000, budget_s=3000),
     rule="Fine grids that can be coarsened (nr odd 5..41, ntheta%4==0 8..64, 1% with >10000 nodes for the parallel path), "
          "half of them midpoint-nested (as the grid generator produces), half with free spacing; splits chosen "
@@ -256,7 +256,7 @@ PROPS["C08"] = dict(
 
 PROPS["C09"] = dict(
     harness="c09_fmg", flavour="rel",
-    quick=dict(workers=8, cases=1500, min_nontrivial=300),
+    quick=dict(workers=8, cases=2500, min_nontrivial=300),
     thorough=dict(workers=16, cases=60000, min_nontrivial=3000, budget_s=3000),
     rule="Two parts. interp (2/3): fine/coarse level pairs (nr odd 9..41, ntheta%4==0 8..64, 1% >10000 nodes), half "
          "midpoint-nested half free spacing, independent splits, threads 1,2,5,16; an arbitrary coarse vector is compared at "
@@ -280,7 +280,7 @@ PROPS["C09"] = dict(
 
 PROPS["C10"] = dict(
     harness="c10_cycles", flavour="rel",
-    quick=dict(workers=8, cases=1200, min_nontrivial=300),
+    quick=dict(workers=8, cases=2500, min_nontrivial=300),
     thorough=dict(workers=16, cases=80000, min_nontrivial=3000, budget_s=3000),
     rule="A GMGPolar object after setup() (shipped smooth triples, grids 9x16..65x128, L in 2..5 via maxLevels, give/take, "
          "both BC modes, threads 1,2,4); through the guarded friend accessor one of the six private cycle functions is run "
